@@ -30,6 +30,10 @@ def order(maxlen, alphabet=(1, 2, 3)):
     return dict(Order=True, Alphabet=list(alphabet), MaxLen=maxlen)
 
 
+def wide(N, maxsize, kinds=(0, 1, 4)):
+    return dict(NA=N, NB=N, Profile='wide', MaxLen=400, MaxCnt=3, MaxCap=100000, MaxSize=maxsize, Kinds=list(kinds), AllocIds=[0])
+
+
 def drv(NA, NB=None, elem=0, **kw):
     d = dict(NA=NA, NB=NA if NB is None else NB, ELEM=elem)
     d.update(kw)
@@ -54,9 +58,29 @@ def job(mc, dr, fmode, n=None, tags=(), label=''):
     return dict(mc=mc, drv=dr, fmode=fmode, max_stims=n, tags=set(tags), label=label)
 
 
+def regress_jobs():
+    """Curated stimuli that once exposed a defect (or a blind spot of the sampling): always replayed."""
+    import json
+    import os
+    import hashlib
+    root = os.path.dirname(os.path.dirname(os.path.abspath(__file__)))
+    out = []
+    for i, r in enumerate(json.load(open(os.path.join(root, 'stimuli', 'regress.json')))):
+        text = ''.join('S g%d_%d 0 | %s\n' % (i, k, s) for k, s in enumerate(r['stims']))
+        d = os.path.join(root, '.cache', 'regress')
+        os.makedirs(d, exist_ok=True)
+        path = os.path.join(d, 'r%d_%s.txt' % (i, hashlib.sha256(text.encode()).hexdigest()[:10]))
+        if not os.path.exists(path):
+            open(path, 'w').write(text)
+        j = job(None, r['drv'], r['fmode'], None, set(r['tags']) | {'regress'}, r['label'])
+        j['stim_file'] = path
+        out.append(j)
+    return out
+
+
 def jobs_for(tier, seed):
     """The job pool of a tier.  `tags` name what the job is there for (used to pick jobs per property)."""
-    J = []
+    J = regress_jobs()
     rot = seed % 16
     if tier == 'quick':
         J.append(job(one(2), drv(2, elem=NT), 1, 1600, {'one', 'fault', 'tracked'}, 'one N=2 nothrow-move, single faults'))
@@ -75,12 +99,16 @@ def jobs_for(tier, seed):
         J.append(job(two(0, 2, **traits_mc(*tr)), drv(0, 2, elem=TM, **traits_drv(*tr)), 1, 800,
                      {'two', 'fault', 'tracked', 'traits', 'mixedN'}, 'two N=0,2 traits %d%d%d%d' % tr))
         tr = ALL_TRAITS[(rot + 11) % 16]
-        J.append(job(two(3, 2, **traits_mc(*tr)), drv(3, 2, elem=NT, **traits_drv(*tr)), 0, 1500,
-                     {'two', 'tracked', 'traits', 'mixedN'}, 'two N=3,2 traits %d%d%d%d' % tr))
+        J.append(job(two(3, 2, **traits_mc(*tr)), drv(3, 2, elem=NT, **traits_drv(*tr)), 1, 900,
+                     {'two', 'tracked', 'traits', 'mixedN', 'fault'}, 'two N=3,2 nothrow-move traits %d%d%d%d' % tr))
         J.append(job(two(2, 2, IsStd=True, allocids=(0,)), drv(2, 2, elem=NT, ALLOC=0), 0, 1200,
                      {'two', 'tracked', 'stdalloc'}, 'two N=2,2 std::allocator'))
         J.append(job(mx(2, 5), drv(2, elem=NT, MAXSZ=5), 0, 2500, {'max', 'tracked'}, 'max_size()=5, N=2'))
         J.append(job(mx(0, 6), drv(0, elem=TRIV, MAXSZ=6), 0, 1500, {'max', 'triv'}, 'max_size()=6, N=0 trivially copyable'))
+        # narrow size_type: boundary arguments around max_size() and around 2^8 (C12), 8-bit exhaustively in thorough
+        J.append(job(wide(2, 63), drv(2, elem=TRIV, SIZET=8), 0, None, {'max', 'triv', 'narrow'}, '8-bit size_type, N=2 trivially copyable, boundary arguments'))
+        J.append(job(wide(0, 21), drv(0, elem=NT, SIZET=8), 1, 500, {'max', 'tracked', 'narrow', 'fault'}, '8-bit size_type, N=0 nothrow-move, boundary arguments + faults'))
+        J.append(job(one(2, maxlen=3, maxcnt=2), drv(2, elem=TM, SIZET=16), 0, 1200, {'one', 'tracked', 'narrow'}, '16-bit size_type, N=2'))
         # C16: all pairs of sequences over {1,2,3} up to length 3 (1600 pairs), equal and mixed inline capacities
         J.append(job(order(3), drv(1, 3, elem=NT), 0, None, {'order', 'tracked'}, 'order: all pairs len<=3, N=1 vs 3, C++17 six operators'))
         J.append(job(order(3), drv(2, 2, elem=TRIV, SPACESHIP=1, std='c++20'), 0, None, {'order', 'triv'}, 'order: all pairs len<=3, N=2,2, C++20 element with <=>'))
@@ -110,6 +138,14 @@ def jobs_for(tier, seed):
         for (N, M) in ((2, 5), (0, 6), (3, 7)):
             J.append(job(mx(N, M), drv(N, elem=NT, MAXSZ=M), 1, None, {'max', 'tracked', 'fault'}, 'max_size()=%d N=%d' % (M, N)))
             J.append(job(mx(N, M), drv(N, elem=TRIV, MAXSZ=M), 0, None, {'max', 'triv'}, 'max_size()=%d N=%d trivially copyable' % (M, N)))
+        for N in (0, 2, 3):
+            J.append(job(wide(N, 63), drv(N, elem=TRIV, SIZET=8), 0, None, {'max', 'triv', 'narrow'}, '8-bit size_type, N=%d trivially copyable, boundary arguments' % N))
+            J.append(job(wide(N, 63), drv(N, elem=INT, SIZET=8), 0, None, {'max', 'triv', 'narrow'}, '8-bit size_type, N=%d int, boundary arguments' % N))
+            J.append(job(wide(N, 21), drv(N, elem=NT, SIZET=8), 1, None, {'max', 'tracked', 'narrow', 'fault'}, '8-bit size_type, N=%d nothrow-move, boundary arguments + faults' % N))
+            J.append(job(wide(N, 21), drv(N, elem=TM, SIZET=8), 1, None, {'max', 'tracked', 'narrow', 'fault'}, '8-bit size_type, N=%d throwing-move, boundary arguments + faults' % N))
+        for bits in (8, 16, 32):
+            J.append(job(one(2, maxlen=4, maxcnt=2), drv(2, elem=TM, SIZET=bits), 1, None, {'one', 'tracked', 'narrow', 'fault'}, '%d-bit size_type, N=2, all single faults' % bits))
+            J.append(job(two(2, 2, **traits_mc(0, 0, 0, 0)), drv(2, 2, elem=NT, SIZET=bits), 0, 6000, {'two', 'tracked', 'narrow'}, '%d-bit size_type, two containers' % bits))
         for (na, nb) in ((0, 0), (1, 3), (3, 1), (2, 2), (0, 3)):
             for (el, ss, std, cxx) in ((NT, 0, 'c++17', 'g++'), (TRIV, 1, 'c++20', 'g++'), (NT, 0, 'c++20', 'g++'), (INT, 0, 'c++11', 'g++'),
                                        (TRIV, 1, 'c++20', 'clang++'), (NT, 0, 'c++14', 'clang++')):
